@@ -170,6 +170,11 @@ def selRemedies (pt : PTree) (g : Globals) (method : String) (us : List Part) : 
 def dispatchFirst (pt : PTree) (g : Globals) (method : String) (us : List Part) : Option String :=
   ((selRemedies pt g method us).filter (·.type == 7)).head?.map (·.name)
 
+/-- A forwarded request: the authentication remedies (type 9) among the selected ones put their account's
+    credentials on the request (`request_headers`); one account per remedy, named after it. -/
+def authKeys (pt : PTree) (g : Globals) (method : String) (us : List Part) : List String :=
+  ((selRemedies pt g method us).filter (·.type == 9)).map (·.name)
+
 /-- Number of remedies active on the request leg (`request_active_remedies`). -/
 def dispatchActive (pt : PTree) (g : Globals) (method : String) (us : List Part) : Nat :=
   ((selRemedies pt g method us).filter (·.type == 7)).length
